@@ -112,6 +112,31 @@ def to_text(spec, records=None):
     return header_text(spec) + "".join(record_text(spec, r) for r in recs)
 
 
+def layout(spec, records=None):
+    """(text bytes, uncompressed start offset of every record, offset of the end)"""
+    recs = spec["records"] if records is None else records
+    head = header_text(spec).encode()
+    offs, parts, n = [], [head], len(head)
+    for r in recs:
+        t = record_text(spec, r).encode()
+        offs.append(n)
+        parts.append(t)
+        n += len(t)
+    return b"".join(parts), offs, n
+
+
+def virtual_offsets(blocks, uoffsets, total_clen):
+    """BGZF virtual offset of each uncompressed offset; blocks = [(coffset, uoffset)] from bgzf_write"""
+    out = []
+    for u in uoffsets:
+        k = max(i for i, (_, bu) in enumerate(blocks) if bu <= u)
+        nxt = blocks[k + 1][1] if k + 1 < len(blocks) else None
+        if nxt is not None and u >= nxt:
+            raise AssertionError
+        out.append((blocks[k][0] << 16) | (u - blocks[k][1]))
+    return out
+
+
 # ----------------------------------------------------------------------------- files
 
 
